@@ -495,6 +495,8 @@ class VarDecl:
     c_type: str
     expr: str
     global_scope: bool = False
+    #: True for the default-initialised declaration lifted out of a nested block.
+    hoisted: bool = False
 
 
 @dataclass
